@@ -313,6 +313,8 @@ func checkC09(p *Prog, r *Report) {
 		}
 	}
 
+	checkIOErrorSticky(p, r)
+
 	// ---- REMOVE-GATES ----
 	r.Rule("C09/REMOVE-GATES", "every (*os.Root).RemoveAll in package receiver sits in a WalkDir callback, is dominated by findInFileList(list, path)==false for the same path it removes, and on every call chain by IOErrors>0 == false and DeleteMode == true; IOErrors is stored only from the wire", 5)
 	ioerrs := p.Field(pkgReceiver, "Transfer", "IOErrors")
@@ -576,4 +578,196 @@ func checkSortLookup(p *Prog, r *Report, nameF *types.Var, find *ssa.Function) {
 			})
 		}
 	}
+}
+
+// checkIOErrorSticky — C09/IOERROR-STICKY: the I/O error flag the sender
+// writes after the file list must reflect an error in ANY of the walks (one per
+// source argument): the receiver refuses to delete only when it is non-zero.
+// The value written is a flag that is only ever raised: starting from a
+// constant, every later assignment is a non-zero constant or combines the
+// previous value (|, +, max); it is never overwritten by a per-walk result.
+func checkIOErrorSticky(p *Prog, r *Report) {
+	rule := "C09/IOERROR-STICKY"
+	r.Rule(rule, "the I/O error flag the sender writes after the file list is sticky over all source arguments: the written value starts as a constant and every other assignment to it is a non-zero constant or combines the previous value (|, +, max) — never a per-walk result that can reset it to zero (the receiver skips --delete only when the flag is non-zero)", 1)
+	g := p.ModGraph()
+	sfl := p.Func(pkgSender, "Transfer", "SendFileList")
+	if sfl == nil {
+		r.Unk(rule, "SendFileList", "-", "anchor not found")
+		return
+	}
+	// the last Buffer.WriteInt32 in SendFileList before the list is flushed
+	var w ssa.CallInstruction
+	for _, fn := range g.unitFuncs(sfl) {
+		if fn != sfl {
+			continue
+		}
+		allCalls(fn, func(c ssa.CallInstruction) {
+			if calleeName(c) == "(*"+pkgWire+".Buffer).WriteInt32" {
+				if w == nil || c.Pos() > w.Pos() {
+					w = c
+				}
+			}
+		})
+	}
+	if w == nil {
+		r.Unk(rule, "I/O error flag write", p.Pos(sfl.Pos()), "no Buffer.WriteInt32 in SendFileList: the end of the file list is written differently now, re-read")
+		return
+	}
+	v := w.Common().Args[1]
+	pos := p.Pos(instrPos(w))
+	bad := ""
+	if ld, ok := v.(*ssa.UnOp); ok && ld.Op == token.MUL {
+		if cell, ok := ld.X.(*ssa.Alloc); ok {
+			// all stores to the cell, in SendFileList and in closures that capture it
+			type storeAt struct {
+				st   *ssa.Store
+				self func(ssa.Value) bool
+			}
+			var stores []storeAt
+			selfHere := func(x ssa.Value) bool { l, ok := x.(*ssa.UnOp); return ok && l.Op == token.MUL && l.X == ssa.Value(cell) }
+			for _, ref := range *cell.Referrers() {
+				switch x := ref.(type) {
+				case *ssa.Store:
+					if x.Addr == ssa.Value(cell) {
+						stores = append(stores, storeAt{x, selfHere})
+					}
+				case *ssa.MakeClosure:
+					lit, _ := x.Fn.(*ssa.Function)
+					for i, bnd := range x.Bindings {
+						if bnd != ssa.Value(cell) || lit == nil || i >= len(lit.FreeVars) {
+							continue
+						}
+						fv := lit.FreeVars[i]
+						selfFv := func(y ssa.Value) bool { l, ok := y.(*ssa.UnOp); return ok && l.Op == token.MUL && l.X == ssa.Value(fv) }
+						for _, r2 := range *fv.Referrers() {
+							if st, ok := r2.(*ssa.Store); ok && st.Addr == ssa.Value(fv) {
+								stores = append(stores, storeAt{st, selfFv})
+							}
+						}
+					}
+				}
+			}
+			loops := naturalLoops(sfl)
+			for _, sa := range stores {
+				if k, ok := constInt(sa.st.Val); ok {
+					if k == 0 && sa.st.Parent() == sfl && len(loopsContaining(loops, sa.st.Block())) > 0 {
+						bad = "the flag is reset to 0 inside the per-argument loop at " + p.Pos(sa.st.Pos())
+					}
+					if k == 0 && sa.st.Parent() != sfl {
+						bad = "the flag is reset to 0 in " + funcKey(sa.st.Parent())
+					}
+					continue
+				}
+				if !combinesSelf(sa.st.Val, sa.self, 0) {
+					bad = "the flag is overwritten at " + p.Pos(sa.st.Pos()) + " by `" + sa.st.Val.String() + "`, which does not include its previous value"
+				}
+			}
+			r.Cond(bad == "", rule, "SendFileList: I/O error flag", pos, bad+": an error in an earlier source argument is forgotten and the receiver deletes the destination's copies of files the sender could not read")
+			return
+		}
+	}
+	// SSA value form: leaves through phis
+	var phis []ssa.Value
+	var walk func(x ssa.Value, depth int)
+	seen := map[ssa.Value]bool{}
+	walk = func(x ssa.Value, depth int) {
+		if seen[x] || depth > 10 || bad != "" {
+			return
+		}
+		seen[x] = true
+		switch y := x.(type) {
+		case *ssa.Phi:
+			phis = append(phis, y)
+			for _, e := range y.Edges {
+				walk(e, depth+1)
+			}
+		case *ssa.Const:
+		case *ssa.BinOp:
+			if y.Op == token.OR || y.Op == token.ADD {
+				walk(y.X, depth+1)
+				walk(y.Y, depth+1)
+				return
+			}
+			bad = "`" + y.String() + "`"
+		case *ssa.Call:
+			if bi, ok := y.Common().Value.(*ssa.Builtin); ok && bi.Name() == "max" {
+				for _, a := range y.Common().Args {
+					walk(a, depth+1)
+				}
+				return
+			}
+			bad = "`" + y.String() + "`"
+		default:
+			bad = "`" + x.String() + "`"
+		}
+	}
+	walk(v, 0)
+	// a non-phi operand of | / + / max may be any per-walk value as long as the previous value takes part:
+	// the walk above is stricter (all leaves constant or combined); relax: if v is a phi and every non-constant
+	// edge is a combination that mentions one of the phis, accept
+	if bad != "" {
+		okCombine := false
+		if ph, isPhi := v.(*ssa.Phi); isPhi {
+			okCombine = true
+			isSelf := func(y ssa.Value) bool {
+				for _, q := range phis {
+					if q == y {
+						return true
+					}
+				}
+				return y == ssa.Value(ph)
+			}
+			for _, e := range ph.Edges {
+				if _, isK := constInt(e); isK {
+					continue
+				}
+				if !combinesSelf(e, isSelf, 0) {
+					okCombine = false
+				}
+			}
+		}
+		if okCombine {
+			bad = ""
+		}
+	}
+	msg := ""
+	if bad != "" {
+		msg = "the flag written is " + bad + ", not a value that is only ever raised: an error in an earlier source argument is forgotten and the receiver deletes the destination's copies of files the sender could not read"
+	}
+	r.Cond(bad == "", rule, "SendFileList: I/O error flag", pos, msg)
+}
+
+// combinesSelf: v is self | x, self + x, max(self, x) (nested), for a value
+// recognised by isSelf.
+func combinesSelf(v ssa.Value, isSelf func(ssa.Value) bool, depth int) bool {
+	if depth > 6 {
+		return false
+	}
+	if isSelf(v) {
+		return true
+	}
+	switch y := v.(type) {
+	case *ssa.BinOp:
+		if y.Op == token.OR || y.Op == token.ADD {
+			return combinesSelf(y.X, isSelf, depth+1) || combinesSelf(y.Y, isSelf, depth+1)
+		}
+	case *ssa.Call:
+		if bi, ok := y.Common().Value.(*ssa.Builtin); ok && bi.Name() == "max" {
+			for _, a := range y.Common().Args {
+				if combinesSelf(a, isSelf, depth+1) {
+					return true
+				}
+			}
+		}
+	case *ssa.Phi:
+		for _, e := range y.Edges {
+			if !combinesSelf(e, isSelf, depth+1) {
+				if _, isK := constInt(e); !isK {
+					return false
+				}
+			}
+		}
+		return true
+	}
+	return false
 }
